@@ -20,6 +20,24 @@ type respScript struct {
 	// fault before answering
 	Fault string // "", "close-before-response", "stall", "half-response"
 	Early bool   // respond right after the header section, without reading the body, then close
+	Seq   *faultSeq // when set: the k-th arrival of this target (at any backend) gets faults[k]
+}
+
+type faultSeq struct {
+	mu     sync.Mutex
+	faults []string
+	k      int
+}
+
+func (f *faultSeq) next() string {
+	f.mu.Lock()
+	defer f.mu.Unlock()
+	if f.k < len(f.faults) {
+		f.k++
+		return f.faults[f.k-1]
+	}
+	f.k++
+	return ""
 }
 
 // peekTarget waits until the header section starting at off is complete and returns the request target ("" on failure).
@@ -52,6 +70,7 @@ type world struct {
 	mu       sync.Mutex
 	scripts  map[string]*respScript // by request target
 	seen     map[string][]seenReq   // by request target
+	holdCh   chan struct{}          // "hold" fault: backends wait until this is closed
 }
 
 type seenReq struct {
@@ -120,12 +139,26 @@ func (w *world) handler(name string) func(bc *sys.BackendConn) {
 			off += m.ConsumedLen
 			sc := w.script(m.Target)
 			if sc != nil {
-				switch sc.Fault {
+				fault := sc.Fault
+				if sc.Seq != nil {
+					fault = sc.Seq.next()
+				}
+				switch fault {
 				case "close-before-response":
 					return
 				case "stall":
 					time.Sleep(3 * time.Second)
 					return
+				case "hold":
+					w.mu.Lock()
+					ch := w.holdCh
+					w.mu.Unlock()
+					if ch != nil {
+						select {
+						case <-ch:
+						case <-time.After(20 * time.Second):
+						}
+					}
 				case "half-response":
 					bc.Conn.Write([]byte("HTTP/1.1 200 OK\r\nContent-Le"))
 					return
